@@ -392,3 +392,14 @@ def run(facts, rep, ctx):
     round4.tb8b(facts, rep)
     round4.br1(facts, rep)
 
+
+
+_run_before_round6 = run
+
+
+def run(facts, rep, ctx):
+    """rules added after the fifth seeding round (rules/round6.py)"""
+    _run_before_round6(facts, rep, ctx)
+    from . import round6
+    round6.tb14(facts, rep)
+    round6.nc3(facts, rep)
